@@ -273,30 +273,91 @@ fn c17_contract_delta_angle_degrees_i32() { wd_i32::delta_angle_degrees(kani::an
 #[kani::proof_for_contract(wd_i32::delta_angle_degrees_safe)]
 fn c17_contract_delta_angle_degrees_i32_safe_region() { wd_i32::delta_angle_degrees_safe(kani::any(), kani::any()); }
 
-// ---- EXPERIMENT bounded ----
-macro_rules! c17_small_all { ($v:expr, $lo:expr, $hi:expr, $max:expr) => { ($hi <= 4095 && -4096 <= $v && $v <= 4095) } }
-c17_wrap_contracts!(ty: u32, any: kani::any(), wrappers: wb_u32, region: c17_small_all,
-    wrapped: c17_x_wrapped_u32_small, wrapped_between: c17_x_wrapped_between_u32_small, pingpong: c17_x_pingpong_u32_small);
-c17_wrap_contracts!(ty: i32, any: kani::any(), wrappers: wb_i32, region: c17_small_all,
-    wrapped: c17_x_wrapped_i32_small, wrapped_between: c17_x_wrapped_between_i32_small, pingpong: c17_x_pingpong_i32_small);
-c17_wrap_contracts!(ty: i64, any: kani::any(), wrappers: wb_i64, region: c17_small_all,
-    wrapped: c17_x_wrapped_i64_small, wrapped_between: c17_x_wrapped_between_i64_small, pingpong: c17_x_pingpong_i64_small);
-#[kani::proof]
-fn c17_x_const_period_i32() {
-    let v: i32 = kani::any();
-    let i: usize = kani::any(); kani::assume(i < 6);
-    let u = [1, 2, 3, 10, 65536, i32::MAX][i];
-    kani::assume(c17_sint_safe!(v.w(), 0, u.w(), i32::MAX as i64));
-    let r = ww_i32::wrapped(v, u);
-    assert!(0 <= r && r < u);
-    assert!((v.w() - r.w()) % u.w() == 0);
+// ---------------------------------------------------------------------------------------------
+// Wider integer types.  The complete contracts above (`c17_contract_*_{u16..usize}` and
+// `*_{i16..isize}_safe_region`) need the SAT solver to relate two independent divider circuits of
+// 32..128 bits and do not finish (u16 `wrapped` is the exception); they are kept in the source but only
+// the ones with a definite verdict are registered.  What is registered instead, per type:
+//   *_small        : the same contracts on the sub-domain -256 <= v <= 255, upper <= 255 (all magnitudes
+//                    fit in 9 bits, so the divider circuits collapse) -- guards the instantiation.
+//   *_const_period : v FULLY symbolic over the whole type (restricted to the exact safe region for signed
+//                    types), bounds drawn from a fixed list of constants that includes 1, small primes,
+//                    360, a power of two, and values at the very top of the type's range -- guards the
+//                    behaviour at the range ends, where the known overflow defect lives.
+// ---------------------------------------------------------------------------------------------
+macro_rules! c17_small_all { ($v:expr, $lo:expr, $hi:expr, $max:expr) => { ($hi <= 255 && -256 <= $v && $v <= 255) } }
+macro_rules! c17_sint_safe_small_all { ($v:expr, $lo:expr, $hi:expr, $max:expr) => { ($hi <= 255 && -256 <= $v && $v <= 255 && c17_sint_safe!($v, $lo, $hi, $max)) } }
+c17_wrap_contracts!(ty: u16, any: kani::any(), wrappers: wsm_u16, region: c17_small_all,
+    wrapped: c17_contract_wrapped_u16_small, wrapped_between: c17_contract_wrapped_between_u16_small, pingpong: c17_contract_pingpong_u16_small);
+c17_wrap_contracts!(ty: u32, any: kani::any(), wrappers: wsm_u32, region: c17_small_all,
+    wrapped: c17_contract_wrapped_u32_small, wrapped_between: c17_contract_wrapped_between_u32_small, pingpong: c17_contract_pingpong_u32_small);
+c17_wrap_contracts!(ty: u64, any: kani::any(), wrappers: wsm_u64, region: c17_small_all,
+    wrapped: c17_contract_wrapped_u64_small, wrapped_between: c17_contract_wrapped_between_u64_small, pingpong: c17_contract_pingpong_u64_small);
+c17_wrap_contracts!(ty: usize, any: kani::any(), wrappers: wsm_usize, region: c17_small_all,
+    wrapped: c17_contract_wrapped_usize_small, wrapped_between: c17_contract_wrapped_between_usize_small, pingpong: c17_contract_pingpong_usize_small);
+c17_wrap_contracts!(ty: i16, any: kani::any(), wrappers: wsm_i16, region: c17_sint_safe_small_all,
+    wrapped: c17_contract_wrapped_i16_small, wrapped_between: c17_contract_wrapped_between_i16_small, pingpong: c17_contract_pingpong_i16_small);
+c17_wrap_contracts!(ty: i32, any: kani::any(), wrappers: wsm_i32, region: c17_sint_safe_small_all,
+    wrapped: c17_contract_wrapped_i32_small, wrapped_between: c17_contract_wrapped_between_i32_small, pingpong: c17_contract_pingpong_i32_small);
+c17_wrap_contracts!(ty: i64, any: kani::any(), wrappers: wsm_i64, region: c17_sint_safe_small_all,
+    wrapped: c17_contract_wrapped_i64_small, wrapped_between: c17_contract_wrapped_between_i64_small, pingpong: c17_contract_pingpong_i64_small);
+c17_wrap_contracts!(ty: isize, any: kani::any(), wrappers: wsm_isize, region: c17_sint_safe_small_all,
+    wrapped: c17_contract_wrapped_isize_small, wrapped_between: c17_contract_wrapped_between_isize_small, pingpong: c17_contract_pingpong_isize_small);
+
+macro_rules! c17_wrap_const_period {
+    (ty: $T:ty, region: $safe:ident, wrapped: $h_w:ident, wrapped_between: $h_wb:ident, pingpong: $h_pp:ident) => {
+        #[kani::proof]
+        fn $h_w() {
+            const M: $T = <$T>::MAX;
+            const U: [$T; 8] = [1, 2, 3, 10, 360, 1 << (<$T>::BITS / 2), M / 2 + 1, M];
+            let v: $T = kani::any();
+            let i: usize = kani::any(); kani::assume(i < 8);
+            let u = U[i];
+            kani::assume($safe!(v.w(), 0, u.w(), <$T as ToW>::MAXW));
+            let r = v.wrapped(u);
+            assert!(0 <= r.w() && r.w() < u.w());
+            assert!((v.w() - r.w()) % u.w() == 0);
+        }
+        #[kani::proof]
+        fn $h_wb() {
+            const M: $T = <$T>::MAX;
+            const B: [($T, $T); 6] = [(2, 5), (0, 1), (1, M), (M - 3, M), (M / 2, M / 2 + 7), (100, 1 << (<$T>::BITS / 2))];
+            let v: $T = kani::any();
+            let i: usize = kani::any(); kani::assume(i < 6);
+            let (lo, hi) = B[i];
+            kani::assume($safe!(v.w(), lo.w(), hi.w(), <$T as ToW>::MAXW));
+            let r = v.wrapped_between(lo, hi);
+            assert!(lo.w() <= r.w() && r.w() < hi.w());
+            assert!((v.w() - r.w()) % (hi.w() - lo.w()) == 0);
+        }
+        #[kani::proof]
+        fn $h_pp() {
+            const M: $T = <$T>::MAX;
+            const U: [$T; 5] = [1, 3, 180, 1 << (<$T>::BITS / 2), M / 2];
+            let v: $T = kani::any();
+            let i: usize = kani::any(); kani::assume(i < 5);
+            let u = U[i];
+            kani::assume($safe!(v.w(), 0, 2 * u.w(), <$T as ToW>::MAXW));
+            let r = v.pingpong(u);
+            assert!(0 <= r.w() && r.w() <= u.w());
+            let m = v.w().rem_euclid(2 * u.w());
+            assert!(r.w() == if m <= u.w() { m } else { 2 * u.w() - m });
+        }
+    }
 }
-#[kani::proof]
-fn c17_x_const_period_u64() {
-    let v: u64 = kani::any();
-    let i: usize = kani::any(); kani::assume(i < 6);
-    let u = [1, 2, 3, 10, 65536, u64::MAX][i];
-    let r = v.wrapped(u);
-    assert!(r < u);
-    assert!((v.w() - r.w()) % u.w() == 0);
-}
+c17_wrap_const_period!(ty: u16, region: c17_region_all,
+    wrapped: c17_wrapped_u16_const_period, wrapped_between: c17_wrapped_between_u16_const_period, pingpong: c17_pingpong_u16_const_period);
+c17_wrap_const_period!(ty: u32, region: c17_region_all,
+    wrapped: c17_wrapped_u32_const_period, wrapped_between: c17_wrapped_between_u32_const_period, pingpong: c17_pingpong_u32_const_period);
+c17_wrap_const_period!(ty: u64, region: c17_region_all,
+    wrapped: c17_wrapped_u64_const_period, wrapped_between: c17_wrapped_between_u64_const_period, pingpong: c17_pingpong_u64_const_period);
+c17_wrap_const_period!(ty: usize, region: c17_region_all,
+    wrapped: c17_wrapped_usize_const_period, wrapped_between: c17_wrapped_between_usize_const_period, pingpong: c17_pingpong_usize_const_period);
+c17_wrap_const_period!(ty: i16, region: c17_sint_safe,
+    wrapped: c17_wrapped_i16_const_period_safe_region, wrapped_between: c17_wrapped_between_i16_const_period_safe_region, pingpong: c17_pingpong_i16_const_period_safe_region);
+c17_wrap_const_period!(ty: i32, region: c17_sint_safe,
+    wrapped: c17_wrapped_i32_const_period_safe_region, wrapped_between: c17_wrapped_between_i32_const_period_safe_region, pingpong: c17_pingpong_i32_const_period_safe_region);
+c17_wrap_const_period!(ty: i64, region: c17_sint_safe,
+    wrapped: c17_wrapped_i64_const_period_safe_region, wrapped_between: c17_wrapped_between_i64_const_period_safe_region, pingpong: c17_pingpong_i64_const_period_safe_region);
+c17_wrap_const_period!(ty: isize, region: c17_sint_safe,
+    wrapped: c17_wrapped_isize_const_period_safe_region, wrapped_between: c17_wrapped_between_isize_const_period_safe_region, pingpong: c17_pingpong_isize_const_period_safe_region);
